@@ -296,8 +296,15 @@ func (l *Lexer) NextToken() token.Token {
 		}
 
 	case rune(0):
-		tok.Literal = ""
-		tok.Type = token.EOF
+		if l.position < len(l.characters) {
+			// A NUL character in the input is an illegal
+			// character like any other - it is not the end
+			// of the input.
+			tok = l.newToken(token.ILLEGAL, l.ch)
+		} else {
+			tok.Literal = ""
+			tok.Type = token.EOF
+		}
 
 	default:
 		if isDigit(l.ch) {
